@@ -2,7 +2,8 @@
 SRCS = ["harness/hashmap.cpp", "contracts/hashmap.c", "contracts/memory.c", "@TREE@/src/Memory.cpp"]
 
 
-def U(name, entry, enforce=None, reach=(), **kw):
+def U(uname, entry, enforce=None, reach=(), **kw):
+    name = uname
     d = dict(name="HashMap." + name, prop="C02", entry=entry, srcs=SRCS, enforce=(enforce, None) if enforce else None, replace=[],
              kind="proof", tier="quick", reach=list(reach), timeout=900, no_native=True,
              funcs=["HashMap<K,V>::" + name.split(".")[0].split("@")[0]], min_obligations=1)
@@ -10,20 +11,22 @@ def U(name, entry, enforce=None, reach=(), **kw):
     return d
 
 
-UNITS = [U("layout", "h_layout")]
-for cap in (1, 3):
+UNITS = [U("layout", "h_layout"), U("layout", "h_layout", defs=["NV_HASHSET"], name="HashSet.layout", funcs=[])]
+for kind, cap in (("HashMap", 1), ("HashMap", 3), ("HashSet", 1), ("HashSet", 3)):
     tag = "@cap%d" % cap
+    KD = ["NV_HASHSET"] if kind == "HashSet" else []
+    PFX = kind + "."
     UNITS += [
         U("insert" + tag, "h_insert", "w_HashMap_insert", ["insert.collide", "insert.new_block", "insert.existing"],
-          defs=["NV_CAP=%d" % cap, "NDEBUG"], cbmc=["--unwind", "6", "--unwinding-assertions"],
+          defs=["NV_CAP=%d" % cap, "NDEBUG"] + KD, cbmc=["--unwind", "6", "--unwinding-assertions"], name=PFX + "insert" + tag,
           bound="bucket chain of the key's bucket <= 2 nodes (order list and all other buckets arbitrary)"),
-        U("remove" + tag, "h_remove", "w_HashMap_remove", ["remove.mid_chain", "remove.only_in_bucket"], defs=["NV_CAP=%d" % cap, "NDEBUG"]),
-        U("find" + tag, "h_find", "w_HashMap_find", ["find.hit", "find.miss_after_collisions"], defs=["NV_CAP=%d" % cap, "NDEBUG"],
+        U("remove" + tag, "h_remove", "w_HashMap_remove", ["remove.mid_chain", "remove.only_in_bucket"], defs=["NV_CAP=%d" % cap, "NDEBUG"] + KD, name=PFX + "remove" + tag),
+        U("find" + tag, "h_find", "w_HashMap_find", ["find.hit", "find.miss_after_collisions"], defs=["NV_CAP=%d" % cap, "NDEBUG"] + KD, name=PFX + "find" + tag,
           cbmc=["--unwind", "4", "--unwinding-assertions"], bound="bucket chain <= 2 nodes"),
     ]
 TRUSTED = ["cbmc 6.11.0 / goto-instrument DFCC / CaDiCaL", "goto-cc C++ front end; HashMap.hpp with compat rule R1, -DNDEBUG (ASSERT/VERIFY macros off)"]
 ASSUMPTIONS = [
-    "ONLY HashMap<long,long> is covered (HashSet and PoolMap share the scheme but are not under contract)",
+    "HashMap<long,long> and HashSet<long> are covered (same harness, -DNV_HASHSET); PoolMap is not",
     "insert / find: the bucket chain of the key's bucket has at most 2 nodes (the find loop is unwound, no loop contract over chains of unbounded length); "
     "capacity 1 (every key collides) and 3; order list, free list and other buckets are arbitrary -- these two units are proofs relative to that chain bound",
     "remove(iterator): no bound (no loop)",
